@@ -314,10 +314,6 @@ fn spin_check(c: &mut Ctx, fam: Fam, b: &[u8], entry: u32, reads: usize) {
 
 pub fn c03_input(c: &mut Ctx, r: &mut Rng, fam: Fam, b: &[u8], full: bool) {
     c.eval();
-    // blocking
-    if let Some(o) = c03_guarded(c, fam, b, 0, || dec_block(fam, b)) {
-        c.count(&format!("block.{}", o.class()));
-    }
     // poll, one always-ready reader
     {
         let mut rd = ScriptedReader::ready(b);
@@ -332,6 +328,13 @@ pub fn c03_input(c: &mut Ctx, r: &mut Rng, fam: Fam, b: &[u8], full: bool) {
             },
             None => {}
         }
+    }
+    // blocking (after the instrumented front-ends: a spin is caught there first)
+    if c.violations.keys().any(|k| k.contains(":spin") || k.contains("MQV-SPIN")) && c.violations.len() > 8 {
+        return;
+    }
+    if let Some(o) = c03_guarded(c, fam, b, 0, || dec_block(fam, b)) {
+        c.count(&format!("block.{}", o.class()));
     }
     if !full {
         // bare header (cheap) for the exhaustive short strings
